@@ -72,6 +72,10 @@ TOPOLOGIES = {
     'chain2': (['zeta', 'alpha'],
                [('zeta', 'alpha', 'b_za'), ('alpha', None, 'ksum')],
                {'ksum': ['k_e', 'b_za']}, {'total': ['zeta', 'alpha']}),
+    # identifiers in mixed case: upper-case letters sort before lower-case ones
+    'chain2mixed': (['Zeta', 'alpha'],
+                    [('Zeta', 'alpha', 'B_za'), ('alpha', None, 'ksum')],
+                    {'ksum': ['k_e', 'B_za']}, {'Total': ['Zeta', 'alpha']}),
     'mam2': (['mid', 'beta'],
              [('mid', 'beta', 'q_mb'), ('beta', 'mid', 'a_bm'), ('mid', None, 'k_e')],
              {}, {'total': ['mid', 'beta']}),
